@@ -1,6 +1,6 @@
 """C05 -- differentiate returns the partial derivatives in variable order (structural clauses)."""
 from ..core import Ctx, Ob, PropSpec
-from ..rules import r2, r3, r7, r8, r7i
+from ..rules import r2, r3, r7, r8, r7i, r4r
 
 DIFF = "cirkit.symbolic.functional.differentiate"
 
@@ -17,6 +17,7 @@ def run(ctx: Ctx) -> list[Ob]:
     obs += r8.run_guards(ctx, r8.GUARDS_DIFFERENTIATE)
     obs += [o for o in r3.r3f(ctx, "params") if o.construct.endswith("TorchPolynomialDifferential")]
     obs += r7i.rewiring_order(ctx, ['differentiate'])
+    obs += r4r.operator_rule_shapes(ctx, {'DIFFERENTIATION'})
     return obs
 
 
@@ -30,9 +31,9 @@ SPEC = PropSpec(
         "unordered set) -- or the consumer sorts locally; R2g: order and var_idx reach the layer rule and PolynomialDifferential; "
         "R2a/R2b/R2c for the DIFFERENTIATION rule and .copyref() of every copied layer; R8: smooth/decomposable and order<=0 guards "
         "under every valuation (functional, pipeline, layer rule, parameter node); R3f: the order hyper-parameter of "
-        "TorchPolynomialDifferential is a config key, i.e. survives the folder's re-instantiation ('every order k' under fold=True). R7i: every comprehension over <circuit>.layer_inputs(<layer>) that re-wires a copied layer in this operator is an order-preserving total map (no `if` filter, not concatenated, not sorted / reversed / made a set): product layers and sum weights are positional."
+        "TorchPolynomialDifferential is a config key, i.e. survives the folder's re-instantiation ('every order k' under fold=True). R7i: every comprehension over <circuit>.layer_inputs(<layer>) that re-wires a copied layer in this operator is an order-preserving total map (no `if` filter, not concatenated, not sorted / reversed / made a set): product layers and sum weights are positional. R4r (symbolic shape interpretation of the operator rules, nothing executed): each differentiation layer rule, applied to abstract operand layers built by interpreting the symbolic layer constructors on symbolic sizes (every parameterisation: probs / logits, optional log-partition, arity 1..3), composes parameter nodes only with operands of the shapes the nodes were built for, hands the resulting layer parameters of exactly the shape its constructor validates (for all sizes, not only when two sizes coincide) and returns a layer with Ko output units."
     ),
     not_decided="polynomial derivative coefficients, the product rule itself (numerical).",
     run=run,
-    floors={"R7i": 4, "R7b": 1, "R2g": 3, "R8": 6, "R3f": 1},
+    floors={"R4r": 2, "R7i": 4, "R7b": 1, "R2g": 3, "R8": 6, "R3f": 1},
 )
